@@ -13,6 +13,8 @@ THEOREMS = {
         "Dawgs.C19.Props.resume_refuses_on_identity_change",
         "Dawgs.C19.Props.resume_ignores_exempt_fields",
         "Dawgs.C19.Props.resume_refuses_on_source_count_change",
+        "Dawgs.C19.Props.resume_refuses_on_completed_source_change",
+        "Dawgs.C19.Props.resume_refuses_on_current_source_change",
         "Dawgs.C19.Props.resume_refuses_on_unexpected_file",
         "Dawgs.C19.Props.c19_full",
     ],
@@ -26,6 +28,7 @@ THEOREMS = {
         "Dawgs.C19.Props.config_digest_covers",
         "Dawgs.C19.Props.salt_digest_order",
         "Dawgs.C19.Props.whole_identity_compared",
+        "Dawgs.C19.Props.source_guards_as_modelled",
     ],
 }
 
@@ -167,7 +170,7 @@ SPEC = {
             "refused resume; distinct = distinct op-line sequences (sha1)",
     "expected_branches": ["crashed.fragment.renamed", "crashed.checkpoint.tmp.written", "crashed.checkpoint.renamed", "crashed.manifest.renamed",
                           "crashed.fragment.record.written", "resume.ok", "resume.refused.unexpected-file", "resume.refused.identity-changed",
-                          "resume.refused.source-changed", "resume.refused.checksum", "resume.refused.fragment-missing",
+                          "resume.refused.source-changed", "gen.source_change_rounds", "resume.refused.checksum", "resume.refused.fragment-missing",
                           "resume.refused.manifest-present", "resume.refused.no-checkpoint", "resume.crashed.resume.temp.removed",
                           "dump.err.db-read", "resume.err.db-read", "torn_temps", "set.salt", "set.rules", "set.scrub", "set.driver",
                           "set.targets", "set.zstdlevel", "set.progress", "set.progresscb"],
